@@ -141,3 +141,135 @@ theorem bondR_spec (h h' : HubSt) (e : HubEnv) (sender : Addr) (funds : List (De
 
 end HubSt
 end Krp
+
+namespace Krp
+namespace HubSt
+
+/-- characterisation of `process_undelegations` -/
+theorem processUndelegations_spec (h h' : HubSt) (e : HubEnv) (ms : List Msg)
+    (hx : h.processUndelegations e = .ok (h', ms)) :
+    pickValidator e (mulDec h.reqB h.bRate + mulDec h.reqS h.sRate) = .ok ms ∧
+    mulDec h.reqS h.sRate ≤ h.sBond ∧ mulDec h.reqB h.bRate ≤ h.bBond ∧
+    h'.sBond = h.sBond - mulDec h.reqS h.sRate ∧ h'.bBond = h.bBond - mulDec h.reqB h.bRate ∧
+    h'.bRate = h.bRate ∧ h'.sRate = h.sRate ∧ h'.reqB = 0 ∧ h'.reqS = 0 ∧
+    h'.batchId = h.batchId + 1 ∧ h'.lastUnbondedTime = e.now ∧
+    h'.hist = upd h.hist h.batchId (some
+      { time := e.now, bAmt := h.reqB, bApplied := h.bRate, bWithdraw := h.bRate,
+        sAmt := h.reqS, sApplied := h.sRate, sWithdraw := h.sRate, released := false }) ∧
+    h'.waitB = h.waitB ∧ h'.waitS = h.waitS ∧ h'.waitSet = h.waitSet ∧
+    h'.prevHubBalance = h.prevHubBalance ∧ h'.lastProcessedBatch = h.lastProcessedBatch := by
+  unfold processUndelegations at hx
+  exc_split at hx
+  refine ⟨by assumption, by omega, by omega, rfl, rfl, rfl, rfl, rfl, rfl, rfl, rfl, rfl, rfl, rfl, rfl, rfl, rfl⟩
+
+/-- characterisation of a successful bSei unbond -/
+theorem unbondB_spec (h h' : HubSt) (e : HubEnv) (amount : Nat) (user : Addr) (ms : List Msg)
+    (hx : h.unbondB e amount user = .ok (h', ms)) :
+    ∃ st supply withFee tok, h.actualState e = .ok st ∧ st.bSupplyQ e = .ok supply ∧
+      st.pegFeeOnBurn supply amount = .ok withFee ∧ amount ≤ supply ∧ st.lastUnbondedTime ≤ e.now ∧
+      h.bsei = some tok ∧
+      ((e.now - st.lastUnbondedTime > st.epoch ∧ ∃ um,
+          (st.afterUnbondB user supply amount withFee).processUndelegations e = .ok (h', um) ∧
+          ms = um ++ [tokMsg e.self tok (.burn amount)]) ∨
+       (¬ e.now - st.lastUnbondedTime > st.epoch ∧ h' = st.afterUnbondB user supply amount withFee ∧
+          ms = [tokMsg e.self tok (.burn amount)])) := by
+  unfold unbondB at hx
+  split at hx
+  · cases hx
+  · rename_i st hst
+    split at hx
+    · cases hx
+    · rename_i supply hsup
+      split at hx
+      · cases hx
+      · rename_i withFee hfee
+        split at hx
+        · cases hx
+        · rename_i hle
+          split at hx
+          · cases hx
+          · rename_i htime
+            split at hx
+            · cases hx
+            · rename_i tok htok
+              refine ⟨st, supply, withFee, tok, hst, hsup, hfee, by omega, by omega, htok, ?_⟩
+              split at hx
+              · rename_i hep
+                split at hx
+                · cases hx
+                · rename_i r hr
+                  injection hx with hx; injection hx with h1 h2
+                  subst h1; subst h2
+                  exact Or.inl ⟨hep, r.2, by cases r; exact hr, rfl⟩
+              · rename_i hep
+                injection hx with hx; injection hx with h1 h2
+                subst h1; subst h2
+                exact Or.inr ⟨hep, rfl, rfl⟩
+
+theorem unbondS_spec (h h' : HubSt) (e : HubEnv) (amount : Nat) (user : Addr) (ms : List Msg)
+    (hx : h.unbondS e amount user = .ok (h', ms)) :
+    ∃ st tok, h.actualState e = .ok st ∧ st.lastUnbondedTime ≤ e.now ∧ h.stsei = some tok ∧
+      ((e.now - st.lastUnbondedTime > st.epoch ∧ ∃ um,
+          (st.afterUnbondS user amount).processUndelegations e = .ok (h', um) ∧
+          ms = um ++ [tokMsg e.self tok (.burn amount)]) ∨
+       (¬ e.now - st.lastUnbondedTime > st.epoch ∧ h' = st.afterUnbondS user amount ∧
+          ms = [tokMsg e.self tok (.burn amount)])) := by
+  unfold unbondS at hx
+  split at hx
+  · cases hx
+  · rename_i st hst
+    split at hx
+    · cases hx
+    · rename_i htime
+      split at hx
+      · cases hx
+      · rename_i tok htok
+        refine ⟨st, tok, hst, by omega, htok, ?_⟩
+        split at hx
+        · rename_i hep
+          split at hx
+          · cases hx
+          · rename_i r hr
+            injection hx with hx; injection hx with h1 h2
+            subst h1; subst h2
+            exact Or.inl ⟨hep, r.2, by cases r; exact hr, rfl⟩
+        · rename_i hep
+          injection hx with hx; injection hx with h1 h2
+          subst h1; subst h2
+          exact Or.inr ⟨hep, rfl, rfl⟩
+
+theorem convertSB_spec (h h' : HubSt) (e : HubEnv) (amount : Nat) (user : Addr) (ms : List Msg)
+    (hx : h.convertSB e amount user = .ok (h', ms)) :
+    ∃ st sTok bTok bs ss mint, h.actualState e = .ok st ∧ h.stsei = some sTok ∧ h.bsei = some bTok ∧
+      st.bRate ≠ 0 ∧ st.bSupplyQ e = .ok bs ∧ st.sSupplyQ e = .ok ss ∧
+      st.pegFeeOnMint bs (decDiv (mulDec amount st.sRate) st.bRate) (mulDec amount st.sRate) = .ok mint ∧
+      mulDec amount st.sRate ≤ st.sBond ∧ amount ≤ ss ∧
+      h' = { st with bBond := st.bBond + mulDec amount st.sRate,
+                     sBond := st.sBond - mulDec amount st.sRate,
+                     bRate := rateOf (st.bBond + mulDec amount st.sRate) (bs + mint) st.reqB,
+                     sRate := rateOf (st.sBond - mulDec amount st.sRate) (ss - amount) st.reqS } ∧
+      ms = [tokMsg e.self bTok (.mint user mint), tokMsg e.self sTok (.burn amount)] := by
+  unfold convertSB at hx
+  exc_split at hx
+  exact ⟨_, _, _, _, _, _, by assumption, by assumption, by assumption, by assumption, by assumption,
+    by assumption, by assumption, by omega, by omega, rfl, rfl⟩
+
+theorem convertBS_spec (h h' : HubSt) (e : HubEnv) (amount : Nat) (user : Addr) (ms : List Msg)
+    (hx : h.convertBS e amount user = .ok (h', ms)) :
+    ∃ st sTok bTok bs ss withFee, h.actualState e = .ok st ∧ h.stsei = some sTok ∧ h.bsei = some bTok ∧
+      st.bSupplyQ e = .ok bs ∧ st.sSupplyQ e = .ok ss ∧ st.pegFeeOnBurn bs amount = .ok withFee ∧
+      st.sRate ≠ 0 ∧ mulDec withFee st.bRate ≤ st.bBond ∧ amount ≤ bs ∧
+      h' = { st with bBond := st.bBond - mulDec withFee st.bRate,
+                     sBond := st.sBond + mulDec withFee st.bRate,
+                     bRate := rateOf (st.bBond - mulDec withFee st.bRate) (bs - amount) st.reqB,
+                     sRate := rateOf (st.sBond + mulDec withFee st.bRate)
+                       (ss + decDiv (mulDec withFee st.bRate) st.sRate) st.reqS } ∧
+      ms = [tokMsg e.self sTok (.mint user (decDiv (mulDec withFee st.bRate) st.sRate)),
+            tokMsg e.self bTok (.burn amount)] := by
+  unfold convertBS at hx
+  exc_split at hx
+  exact ⟨_, _, _, _, _, _, by assumption, by assumption, by assumption, by assumption, by assumption,
+    by assumption, by assumption, by omega, by omega, rfl, rfl⟩
+
+end HubSt
+end Krp
